@@ -508,13 +508,25 @@ def r15e(run):
                               f"a later property's own name",
                       necessity="{'a-b': ..., 'a_b': ...} sanitises 'a-b' to 'a_b' and then collides with the property "
                                 "'a_b': building the class raises ConfigError", node=c)
+    # the namespace and annotation dicts are found by role: the third argument of the metaclass call and the value
+    # stored under __annotations__
+    NS = ANN = None
+    for n, c in fa.all_calls():
+        if unparse(c.func).endswith("object_meta_cls") and len(c.args) == 3 and isinstance(c.args[2], ast.Name):
+            NS = c.args[2].id
+        if call_attr(c) == "update" and isinstance(c.func, ast.Attribute):
+            for kw in c.keywords:
+                if kw.arg == "__annotations__" and isinstance(kw.value, ast.Name):
+                    ANN = kw.value.id
+    if not (NS and ANN):
+        raise AnalysisError("parse_object: class namespace / annotations dicts not found")
     keys = set()
     for n in fa.cfg.nodes:
         if n.kind == "stmt" and isinstance(n.ast, ast.Assign) and isinstance(n.ast.targets[0], ast.Subscript):
             t = n.ast.targets[0]
-            if unparse(t.value) in ("attrs", "annotations"):
+            if unparse(t.value) in (NS, ANN):
                 keys.add((unparse(t.value), unparse(t.slice)))
-    ok = {k for _, k in keys} and len({k for _, k in keys}) == 1 and {a for a, _ in keys} == {"attrs", "annotations"}
+    ok = {k for _, k in keys} and len({k for _, k in keys}) == 1 and {a for a, _ in keys} == {NS, ANN}
     run.check("R15e", f, "fields and annotations are stored under the same (sanitised) name", bool(ok),
               construct="attrs / annotations keyed differently",
               message=f"parse_object stores fields and annotations under different keys: {sorted(keys)}",
